@@ -269,7 +269,7 @@ _APP_STATE = [api.ClassState(applicationentity), api.ModuleState(applicationenti
 @cond(bounds='2-3 messages in a row on ONE association through the real StateMachine.dt_2 / ar_6 (Sta6 or Sta7): 6 orders of '
              'file-backed C-STORE-RQ, in-memory C-STORE-RQ, C-FIND-RQ, C-ECHO-RQ; message ids symbolic, 22 '
              'concrete data bytes each (distinct per message), maximum length 58, each message delivered all in one P-DATA-TF, one fragment per '
-             'PDU, or split after the first / before the last fragment (symbolic selectors); every message must be indicated exactly when its last fragment arrives, with '
+             'PDU, or split after the first / before the last fragment (symbolic selectors); every message must be indicated exactly when its last fragment arrives (and be complete - data set attached, file rewound - at the moment the indication is queued), with '
              'its own type, context, command set and data (incl. the same SOP class on two contexts with different syntaxes); the '
              'application may have closed an earlier file (symbolic); in extra instances the local user requests release after 1 / 3 '
              '(thorough: 1..4) PDUs of the first message: the rest arrives in Sta7',
@@ -304,6 +304,16 @@ def message_sequence(mid: int, g1: int, g2: int, closed: bool) -> bool:
     sm.current_state = state
     g1, g2 = pick(g1, 0, 3), pick(g2, 0, 3)
     log = prov.to_service_user.log
+    at_put = []
+
+    def snapshot(item):
+        # the indication becomes visible to the user's thread inside put(): the message must be complete THEN
+        ds_ = item[0].data_set if isinstance(item, tuple) else None
+        if ds_ is None or isinstance(ds_, bytes):
+            at_put.append(ds_)
+        else:
+            at_put.append((ds_.tell(), ds_.getvalue()))
+    prov.to_service_user.on_put = snapshot
     ok = True
     for j, kind in enumerate(kinds_):
         data = (b'\x10\x00', b'\x20\x00', b'\x30\x00')[j] + TAIL[j:j + 20]
@@ -342,10 +352,11 @@ def message_sequence(mid: int, g1: int, g2: int, closed: bool) -> bool:
             except part10.Part10Error:
                 return False
             ok = ok and whole[off:] == data and part10.text(meta[(2, 0x10)]) == str(ts if kind == 'store_file' else ts_b)
+            ok = ok and at_put[j] == (0, whole)             # attached, complete and rewound when it was indicated
             if closed:
                 fp.close()                 # the application is done with the file it was handed
         else:
-            ok = ok and got.data_set == data
+            ok = ok and got.data_set == data and at_put[j] == data
         if not ok:
             return False
     # files handed over earlier were not written to afterwards
